@@ -3,6 +3,7 @@
  * SPDX-License-Identifier: Apache-2.0
  */
 
+use crate::config::Scale;
 use crate::kernel::balance::{BTNs, Balance, Deltas};
 use crate::kernel::report_item_selector::{
     BalanceAllSelector, BalanceByAccountSelector, BalanceSelector,
@@ -59,9 +60,9 @@ impl BalanceReporter {
                 .map(|btn| {
                     let d = f(btn);
                     // include space for '+-' to the length always
-                    format!("{:+.prec$}", d, prec = bal_settings.scale.get_precision(&d))
-                        .chars()
-                        .count()
+                    let prec = bal_settings.scale.get_precision(&d);
+                    Scale::format_with_precision(&d, prec).chars().count()
+                        + usize::from(d.is_sign_positive())
                 })
                 .fold(0, max)
         };
@@ -135,15 +136,21 @@ impl BalanceReporter {
 
                 writeln!(
                     writer,
-                    "{left_ruler}{:>asl$.prec_1$}{:>width$}{:>satsl$.prec_2$}{}{}",
-                    btn.account_sum.round_dp_with_strategy(
-                        prec_1 as u32,
-                        RoundingStrategy::MidpointAwayFromZero
+                    "{left_ruler}{:>asl$}{:>width$}{:>satsl$}{}{}",
+                    Scale::format_with_precision(
+                        &btn.account_sum.round_dp_with_strategy(
+                            prec_1 as u32,
+                            RoundingStrategy::MidpointAwayFromZero
+                        ),
+                        prec_1
                     ),
                     "",
-                    btn.sub_acc_tree_sum.round_dp_with_strategy(
-                        prec_2 as u32,
-                        RoundingStrategy::MidpointAwayFromZero
+                    Scale::format_with_precision(
+                        &btn.sub_acc_tree_sum.round_dp_with_strategy(
+                            prec_2 as u32,
+                            RoundingStrategy::MidpointAwayFromZero
+                        ),
+                        prec_2
                     ),
                     make_commodity_field(comm_max_len, btn),
                     btn.acctn.atn,
@@ -175,10 +182,13 @@ impl BalanceReporter {
                 let prec = bal_settings.scale.get_precision(delta.1);
                 writeln!(
                     writer,
-                    "{left_ruler}{:>width$.prec$}{}",
-                    delta.1.round_dp_with_strategy(
-                        prec as u32,
-                        RoundingStrategy::MidpointAwayFromZero
+                    "{left_ruler}{:>width$}{}",
+                    Scale::format_with_precision(
+                        &delta.1.round_dp_with_strategy(
+                            prec as u32,
+                            RoundingStrategy::MidpointAwayFromZero
+                        ),
+                        prec
                     ),
                     delta
                         .0
